@@ -914,8 +914,26 @@ class RecCtx(Context):
         RecCtx.last = self
 
 
+def _disarm():
+    while True:
+        try:
+            signal.setitimer(signal.ITIMER_REAL, 0, 0)
+            return
+        except Hang:
+            continue          # the re-firing timer went off while it was being switched off
+
+
 def run_impl(p, s):
     """-> (line compared with the model, summary compared with the reference)"""
+    try:
+        return _run_impl(p, s)
+    except Hang:
+        # the timer re-fires every 50 ms once it has gone off: it may do so between the handler below and the disarming
+        _disarm()
+        return "hang", "hang", False
+
+
+def _run_impl(p, s):
     signal.setitimer(signal.ITIMER_REAL, 5.0, 0.05)      # re-fires: Choice's bare except may eat one
     try:
         data = list(s)
@@ -939,7 +957,7 @@ def run_impl(p, s):
     except Hang:
         return "hang", "hang", False
     finally:
-        signal.setitimer(signal.ITIMER_REAL, 0, 0)
+        _disarm()
     line = "%s|%d|%s|%s" % (res, 1 if ferr else 0, tags, call)
     summary = (call + (" %d" % pos if call.startswith("value") and pos is not None else ""))
     return line, summary, cferr
